@@ -16,10 +16,19 @@ META = {
             "forms; the property itself is checked on loops of 10/10^3/2*10^4 (thorough 10^5) tail calls through "
             "composed derived-form contexts, arities 0..4, variadics, apply/call-cc/eval, 1-3 procedure cycles: "
             "stack high-water mark independent of n.",
-    "note": "Trusted: Lean kernel; axioms propext/Quot.sound/Classical.choice. The loop theorem is one iteration "
-            "(TCALL+ENTER preserve the frame identity); that the body between ENTER and the next TCALL leaves the "
-            "frame header intact (stack discipline of compiled expression code) is not proved — it is exercised by the "
-            "lock-step replay and the high-water-mark runs. Tail positions inside derived forms (cond, case, and, or, "
+    "note": "Trusted: Lean kernel; axioms propext/Quot.sound/Classical.choice. The loop theorem now holds for n "
+            "iterations with ARBITRARY verified bodies (tail_loop_same_frame / tail_loop_sp, by induction on n): that "
+            "the code between ENTER and the next TCALL leaves the frame header intact is a theorem (WF-stack "
+            "preservation step_preserves for all 16 opcodes incl. builtin dispatch, apply/eval/call-cc re-dispatch, "
+            "continuation capture/invocation, VARARG, both TCALL branches; Trace.stable) for every code object the "
+            "executable bytecode verifier Vm/Verify.lean accepts, under the explicit hypothesis structures CodeLaws "
+            "(generic heap: lambda bytecode immutable under heap operations, callee lambdas verify, continuations are "
+            "snapshots of WF states) — parameters, not axioms. That the REAL compiler's output verifies is not a "
+            "theorem about the compiler model (verify (compile e) = ok is not proved) but translation validation: the "
+            "bytecode-verifier stream runs the verifier on every lambda object found in the real heap (prelude, "
+            "eval-compiled, variadic, call/cc receivers, every derived form) and compares the verifier's abstract stack "
+            "height with the observed sp-bp-4 at every executed (code, offset). Loop traces exclude continuation "
+            "invocation inside the loop body (Trace) and require closure (not bare-lambda) tail-call targets. Tail positions inside derived forms (cond, case, and, or, "
             "when, unless, let-family, begin) rest on their prelude macro expansions, which are not part of the "
             "compiler theorem; they are covered by the high-water-mark exploration through every derived form. "
             "VARARG normalisation is modelled and replayed in lock-step but has no closed frame theorem yet.",
@@ -36,6 +45,16 @@ THEOREMS = [
     "Marwood.Proofs.C04.application_call_op",
     "Marwood.Vm.tcallCopyDiff_spec",
     "Marwood.Vm.tcallCopySame_spec",
+    # WF-stack: the stack discipline of verified bytecode (Lemmas/StackWF*.lean), under CodeLaws
+    "Marwood.Vm.step_preserves",
+    "Marwood.Vm.step_halt",
+    "Marwood.Vm.tcallTail_ok",
+    "Marwood.Vm.stepVarArg_ok",
+    "Marwood.Vm.Trace.stable",
+    "Marwood.Vm.header_of_base",
+    "Marwood.Proofs.C04.frame_header_intact_at_tcall",
+    "Marwood.Proofs.C04.tail_loop_same_frame",
+    "Marwood.Proofs.C04.tail_loop_sp",
 ]
 
 
@@ -47,7 +66,27 @@ def nontrivial(req, impl):
     return True
 
 
+def bc_model_equal(req, impl, model):
+    """bytecode-verifier stream: `vbc` (a code object of the real heap) must be accepted, with the kind
+    the harness sees, at least the number of temporaries observed while stepping it, and VARARG present
+    exactly for variadic lambdas; `vat` (an executed offset): the verifier's height = the observed one."""
+    if req.startswith("vbc "):
+        i, m = impl.split(), model.split()
+        if len(m) != 3 or m[0] != "ok" or m[1] != i[1] or "shape=1" not in impl:
+            return False
+        return i[2] == "-" or int(i[2]) <= int(m[2])
+    return impl == model
+
+
+def bc_nontrivial(req, impl):
+    return "callAcc" in req or "tcallAcc" in req or "jnt" in req
+
+
 def streams(ctx):
+    n = 40 if ctx.quick() else 1500
+    cases = gen_cases("verifybc", ["lambdas", n], ctx.seed)
+    md, sd = correspond(ctx, "bytecode-verifier", cases, bc_nontrivial, model_equal=bc_model_equal)
+    settle(ctx, md, sd)
     n = 100 if ctx.quick() else 2000
     cases = gen_cases("vm", ["trace", n], ctx.seed)
     md, sd = correspond(ctx, "lockstep-run_one", cases, nontrivial)
@@ -55,6 +94,13 @@ def streams(ctx):
     n = 300 if ctx.quick() else 6000
     cases = gen_cases("vm", ["compile", n], ctx.seed)
     md, sd = correspond(ctx, "compiler-model-vs-compiled-code", cases, nontrivial)
+    settle(ctx, md, sd)
+    # the compiler MODEL's output through the bytecode verifier (executable stand-in for the unproved
+    # theorem `verify (compile e) = ok`): same forms, every code object the model emits must verify
+    vc = [("vcompile " + req[len("compile "):], "ok" if impl.startswith("ok") else "err", None)
+          for (req, impl, _) in cases if req.startswith("compile ")]
+    md, sd = correspond(ctx, "compiler-model-output-verifies", vc, lambda r, i: i == "ok",
+                        model_equal=lambda r, i, m: m.split()[0] == i)
     settle(ctx, md, sd)
     n, big = (150, 20000) if ctx.quick() else (1500, 100000)
     cases = gen_cases("vm", ["tailloops", n, big], ctx.seed)
@@ -64,8 +110,14 @@ def streams(ctx):
 
 def run(ctx):
     return standard_run(
-        ctx, MODULE, THEOREMS, ["vm"], streams,
-        rule="(1) every instruction of generated sessions replayed through the Lean model of run_one (non-trivial: "
+        ctx, MODULE, THEOREMS, ["vm", "verifybc"], streams,
+        rule="(0) bytecode-verifier (translation validation of the stack discipline): every Lambda object found in the real "
+             "heap after hand-written sessions (every derived form, variadics, eval-compiled code, call/cc receivers, "
+             "apply, quasiquote, user macros, deep nested applications, failures) and generated sessions — prelude "
+             "procedures included — must be accepted by the Lean bytecode verifier, and at every executed (code object, "
+             "offset) the verifier's abstract stack height must equal the observed sp-bp-4 (below the argument block at "
+             "CALL/TCALL; sp - entry sp in entry code); the compiler model's own output is run through the verifier on "
+             "the forms of stream (2); (1) every instruction of generated sessions replayed through the Lean model of run_one (non-trivial: "
              "TCALL/VARARG/ENTER steps); (2) macro-expanded generated and malformed forms: real compiled code object "
              "vs compiler model, canonical by symbol name (non-trivial: code containing TCALL); (3) tail-call loops "
              "through 0..3 composed tail contexts (if/cond/case/and/or/when/unless/let/let*/letrec/begin/lambda/named "
